@@ -872,8 +872,15 @@ func (c *Ctx) Finish(explanation string) int {
 			continue
 		}
 		full := o.Rule + "::" + o.Key
+		// (the same construct seen under another build configuration of the thorough tier is the same finding)
+		plain := full
+		if i := strings.Index(o.Key, "tags="); i == 0 {
+			if j := strings.Index(o.Key, ":"); j > 0 {
+				plain = o.Rule + "::" + o.Key[j+1:]
+			}
+		}
 		for _, k := range known {
-			if k.prop == c.Prop && k.key == full {
+			if k.prop == c.Prop && (k.key == full || k.key == plain) {
 				o.Known = true
 				fmt.Printf("KNOWN-FINDING: property=%s %s %s — %s\n", c.Prop, full, o.Pos, k.desc)
 			}
